@@ -558,7 +558,18 @@ where
         // Remove the pre-inner alt, to be reinserted later so we always preserve it
         let old_alt = inp.errors.alt.take();
 
-        let out = self.parser.go::<Emit>(inp)?;
+        let out = match self.parser.go::<Emit>(inp) {
+            Ok(out) => out,
+            Err(()) => {
+                // If the inner parser failed, reinsert the original alt and apply the inner alt on top of it
+                let new_alt = inp.errors.alt.take();
+                inp.errors.alt = old_alt;
+                if let Some(new_alt) = new_alt {
+                    inp.add_alt_err(&new_alt.pos, new_alt.err);
+                }
+                return Err(());
+            }
+        };
         let span = inp.span_since(&before);
         let new_alt = inp.errors.alt.take();
 
